@@ -6,7 +6,7 @@ out=seeded/RESULTS.md
 echo "| seed | property | change (agent's summary) | needs | quick check of its property |" > $out
 echo "|---|---|---|---|---|" >> $out
 for d in seeded/C*-*/; do
-  id=$(basename $d); P=${id%-*}
+  id=$(basename $d); P=${id%%-*}
   det=$(tools/seed_detect.sh $d $P quick 2>&1 | tail -1)
   python3 - "$d" "$id" "$P" "$det" >> $out <<'PY'
 import json,sys
